@@ -8,6 +8,7 @@ import (
 	"testing"
 	"time"
 
+	intoto "github.com/in-toto/in-toto-golang/in_toto"
 	"pgregory.net/rapid"
 
 	"verif/harness/hx"
@@ -259,6 +260,101 @@ func c06Run(c c06Case, r *hx.Rec) error {
 	return nil
 }
 
+// c06Crossing: layouts that are still valid when they are verified first and expired when the same
+// process verifies them again (a long-running verifier, a CI worker, an admission controller).
+type c06Crossing struct {
+	Worlds []hx.World `json:"worlds"`
+	Reload []bool     `json:"reload"` // second verification with a freshly loaded layout (else: the object of the first one)
+	Margin int        `json:"margin"` // whole seconds between the start of the case and the expiry
+}
+
+func c06CrossingGen(t *rapid.T) c06Crossing {
+	o := hx.DefaultWorldOpts()
+	o.MaxSteps = 2
+	o.MaxInspections = 1
+	n := rapid.IntRange(2, 4).Draw(t, "nworlds")
+	c := c06Crossing{Margin: rapid.IntRange(2, 3).Draw(t, "margin")}
+	for i := 0; i < n; i++ {
+		c.Worlds = append(c.Worlds, hx.GenWorld(t, o))
+		c.Reload = append(c.Reload, rapid.Bool().Draw(t, "reload"))
+	}
+	return c
+}
+
+func c06CrossingRun(c c06Crossing, r *hx.Rec) error {
+	start := time.Now()
+	expires := start.Truncate(time.Second).Add(time.Duration(c.Margin+1) * time.Second)
+	expiry := fmtExpiry(expires)
+	type prepared struct {
+		b      *hx.Built
+		layout intoto.Metadata
+		first  bool // accepted before the expiry
+	}
+	var ps []*prepared
+	for i, w := range c.Worlds {
+		if w.Layout.Meta.Layout == nil {
+			continue
+		}
+		lay := *w.Layout.Meta.Layout
+		lay.Expires = expiry
+		w.Layout.Meta = hx.MMeta{Layout: &lay}
+		root, err := os.MkdirTemp("", "c06x-")
+		if err != nil {
+			return nil
+		}
+		defer os.RemoveAll(root)
+		b, err := hx.Materialise(w, root)
+		if err != nil {
+			return fmt.Errorf("harness: materialise: %v", err)
+		}
+		md, err := intoto.LoadMetadata(b.LayoutPath)
+		if err != nil {
+			return fmt.Errorf("harness: layout %d does not load: %v", i, err)
+		}
+		ps = append(ps, &prepared{b: b, layout: md})
+	}
+	for i, p := range ps {
+		out := p.b.VerifyWith(p.layout, nil, nil)
+		if time.Now().Unix()+1 >= expires.Unix() {
+			continue // too slow this time: nothing can be said about this one
+		}
+		if out.Panic != nil || out.Rejected() {
+			return fmt.Errorf("layout %d, valid until %s, was rejected at %s: %s", i, expiry, fmtExpiry(time.Now()), out)
+		}
+		p.first = true
+	}
+	time.Sleep(time.Until(expires.Add(1200 * time.Millisecond)))
+	crossed := 0
+	for i, p := range ps {
+		if !p.first {
+			continue
+		}
+		crossed++
+		md := p.layout
+		if c.Reload[i%len(c.Reload)] {
+			md = nil
+		}
+		r.Label("second-verification-reloaded=%v", md == nil)
+		r.Label("wrapper=%s", p.b.W.Layout.Wrapper)
+		r.Label("entry=%s", p.b.W.Entry)
+		out := p.b.VerifyWith(md, nil, nil)
+		if !out.Rejected() {
+			return fmt.Errorf("layout %d (wrapper %s, entry %s) was accepted at %s; it expired on %s and the same process had verified it successfully before that (second verification with a freshly loaded layout: %v)",
+				i, p.b.W.Layout.Wrapper, p.b.W.Entry, fmtExpiry(time.Now()), expiry, md == nil)
+		}
+		if len(out.Log) > 0 || len(out.Dropped) > 0 {
+			return fmt.Errorf("layout %d expired on %s: rejected (%s) but inspection commands ran: %v %v", i, expiry, out, out.Log, out.Dropped)
+		}
+	}
+	if crossed == 0 {
+		r.Unasserted()
+		return nil
+	}
+	r.Nontrivial()
+	r.Key("%d|%v|%d", len(ps), c.Reload, start.UnixNano())
+	return nil
+}
+
 func TestC06(t *testing.T) {
 	begin(t, "C06")
 	hx.Assume("the real clock is bracketed (t0 before, t1 after the call); expiries inside the bracket are counted as unasserted; relative expiries are computed when the case runs, so replays re-derive them")
@@ -268,6 +364,16 @@ func TestC06(t *testing.T) {
 		Rule:  "otherwise-accepting generated worlds (both wrappers, both entry points, 0-2 logging inspections) x expiry: random well-formed timestamps year 1..9999, now +-{1s..10y}, calendar edge cases, other date layouts / time-zone suffixes / lower case / near-miss single-character edits / empty / arbitrary text; non-trivial = well-formed expiry within +-1h of now or a malformed string; distinct by (wrapper, entry, expiry spec, shape)",
 		Cases: hx.Pick(1200, 100000),
 		Gen:   c06Gen, Run: c06Run,
+	}.Execute(t)
+	if t.Failed() {
+		return
+	}
+	// the verdict of an earlier verification in the same process must not outlive the expiry
+	hx.Check[c06Crossing]{
+		Property: "C06", Part: "expiry-crossing",
+		Rule:  "2-4 otherwise-accepting generated worlds per case whose layouts expire 2-3 s after the case starts: each is verified before the expiry (must accept), the process sleeps across the expiry, each is verified again with the same layout object or a freshly loaded one (must reject, no inspection may run); non-trivial = at least one layout was verified on both sides of its expiry; every case is distinct (real time)",
+		Cases: hx.Pick(3, 60),
+		Gen:   c06CrossingGen, Run: c06CrossingRun,
 	}.Execute(t)
 	if t.Failed() {
 		return
